@@ -4,6 +4,7 @@ import P2.Driver.MapSt
 import P2.Driver.Cmp
 import P2.Driver.Binning
 import P2.Driver.Lang
+import P2.Driver.Heap
 /-! Line-protocol driver of the model: one request per line on stdin, one response per line on stdout. -/
 open P2.Driver
 
@@ -16,6 +17,7 @@ def handle (line : String) : String :=
   | "CMP" :: args => handleCmp args
   | "BIN" :: args => handleBin args
   | "EVAL" :: args => handleEval args
+  | "HIST" :: args => P2.Driver.Heap.handleHist args
   | "PING" :: _ => "PONG"
   | _ => "BADREQ"
 
